@@ -169,6 +169,7 @@ class Verifier(object):
             params.append(a.vararg.arg)
         if a.kwarg:
             params.append(a.kwarg.arg)
+        m._case = case
         custom = c.setup_(m, m.path) if c.setup_ else {}
         for p in params:
             if p in custom:
@@ -290,9 +291,15 @@ class Verifier(object):
                     path.oblige(m.oblname("yields_seq/" + name), m.spec(expr, spec_env, extra=extra), kind="ensures",
                                 assume_after=False, uses=c.uses_.get(name))
             for name, expr, opts in c.ensures_:
-                g = m.spec(expr, spec_env, extra={"result": value})
+                saved_pc = list(path.pc)
+                m.goal_mode = True
+                try:
+                    g = m.spec(expr, spec_env, extra={"result": value})
+                finally:
+                    m.goal_mode = False
                 path.oblige(m.oblname("ensures/" + name), g, kind="ensures", assume_after=False,
                             uses=opts.get("uses", c.uses_.get(name)))
+                path.pc[:] = saved_pc
         else:
             whens = [m.spec(when, fr.entry_env) for etype, when in c.raises_ if exc_isinstance(exc.etype, etype)]
             allowed = any((exc.etype == et[1:]) if et.startswith("=") else exc_isinstance(exc.etype, et)
